@@ -95,7 +95,9 @@ def check_norm(ch, x):
     opts = [True] + ([False] if allket else [])
     o = ch.choice(opts, "phase_dual")
     mode = ch.choice(["auto", "fused", "blockwise"], "mode")
-    xc = must(x.conj, phase_dual=o, what="conj")
+    # (phase_dual=False is the documented default: left out)
+    okw = {"phase_dual": True} if o else {}
+    xc = must(x.conj, what="conj", **okw)
     require_valid(xc, "conj:invalid", "x.conj()")
     require(list(xc.duals) == [not d for d in x.duals], "conj:duals", "")
     require(xc.charge == G.neg(symm, x.charge), "conj:charge",
@@ -105,7 +107,7 @@ def check_norm(ch, x):
     scalar_equal(v1, want, "norm:conj.x", what=f"phase_dual={o}")
     scalar_equal(v2, want, "norm:x.conj", what=f"phase_dual={o}")
     # dagger: axes reversed
-    xd = must(x.dagger, phase_dual=o, what="dagger")
+    xd = must(x.dagger, what="dagger", **okw)
     require_valid(xd, "dagger:invalid", "x.dagger()")
     rev = list(range(n - 1, -1, -1))
     v3 = must(sr.tensordot, xd, x, (list(range(n)), rev), mode=mode,
